@@ -123,6 +123,11 @@ func zzC05_Compact_N2() {
 	zzC05Compact("2;Results=1;RDeps=0;Tombstones=1;constkeys=Tasks,Meta,Deps")
 }
 
+// thorough tier: two results per task (order among results), still two items
+func zzC05_Compact_N2R2() {
+	zzC05Compact("2;Results=2;RDeps=0;Tombstones=1;constkeys=Tasks,Meta,Deps")
+}
+
 func zzC05_Compact_N3() {
 	zzC05Compact("3;Results=2;RDeps=0;Tombstones=1;constkeys=Tasks,Meta,Deps")
 }
